@@ -35,7 +35,7 @@ fn build_root() -> Context<'static> {
     ctx
 }
 
-const P18: [&str; 32] = [
+const P18: [&str; 34] = [
     "xs + [9]", "xs + ys", "xs + xs", "(xs + ys) + xs", "e + xs", "s + 'c'", "s + s", "es + s", "xs.map(v, v + 1)", "xs.filter(v, v > 1)", "n.map(l, l + [0])", "n[0] + n[1]",
     "m.k + [2]", "m.map(k, m[k] + [5])", "[xs, xs]", "{'a': xs}", "r0 + [7]", "r0 + r0",
     // a macro that fails in the middle of its loop, and macros that read a same-named outer
@@ -51,6 +51,9 @@ const P18: [&str; 32] = [
     // built-in names selected as members without being called, next to programs that call them
     // (a registry filled lazily by the first call would change what later executions see)
     "xs.size", "[s.matches, xs.string]",
+    // two programs of the same shape (same node ids) with different literals; the first fails after
+    // evaluating its literals (state left behind by an aborted evaluation, keyed by position)
+    "[s + 'xAAA!', b'AAA', 'AAA', string(10 / (xs[0] - 1))]", "[s + 'xBBB!', b'BBB', 'BBB', string(10 / (xs[0] - 0))]",
 ];
 
 fn arc_id(v: &Value) -> Option<(usize, usize)> {
